@@ -41,4 +41,14 @@ def runFlags {σ : Type} (step : σ → Tok → EncOut σ) : σ → List Tok →
     | .cont => .cont :: runFlags step (step s t).st ts
     | f => [f]
 
+/-- Like `runFlags`, also collecting the `Write` calls made (writer never fails). -/
+def runOut {σ : Type} (step : σ → Tok → EncOut σ) : σ → List Tok → List Flag × List Bytes
+  | _, [] => ([], [])
+  | s, t :: ts =>
+    match (step s t).ret.flag with
+    | .cont =>
+      let r := runOut step (step s t).st ts
+      (.cont :: r.1, (step s t).writes ++ r.2)
+    | f => ([f], (step s t).writes)
+
 end Refmt
